@@ -9,16 +9,18 @@ for name in sys.argv[1:]:
     d = f"{V}/seeded/{name}"
     meta = json.load(open(f"{d}/meta.json"))
     pid = meta["property"]
-    assert sh("git -C /repo status --porcelain").stdout.strip() == "", "repo not clean"
-    assert sh(f"git -C /repo apply {d}/patch.diff").returncode == 0
+    wt = f"/tmp/wt_seedrun_{name}"
+    sh(f"git -C /repo worktree remove --force {wt}")
+    assert sh(f"git -C /repo worktree add --detach {wt} HEAD").returncode == 0
     try:
+        assert sh(f"git -C {wt} apply {d}/patch.diff").returncode == 0
         t0 = time.time()
-        c = sh(f"cd {V} && ./check {pid} --tier quick")
+        c = sh(f"cd {V} && ./check {pid} --tier quick --repo {wt}")
         meta["check_exit"] = c.returncode
         meta["check_wall_s"] = round(time.time() - t0, 1)
         meta["check_lines"] = [l[:300] for l in c.stdout.splitlines() if l.startswith(("VIOLATION", pid + ":"))][:6]
     finally:
-        sh("git -C /repo checkout -- .")
+        sh(f"git -C /repo worktree remove --force {wt}")
     meta["detected"] = meta["check_exit"] == 1
     json.dump(meta, open(f"{d}/meta.json", "w"), indent=1)
     print(name, "check_exit=%s" % meta["check_exit"], (meta["check_lines"] or [""])[0][:200])
